@@ -417,6 +417,17 @@ theorem add_comm_across_units_density (s1 s2 : USpec) (f : FUnit) (h1 : s1.vu = 
     ufuncU (· + ·) s2 s1 ((m.scale (waveTo s1.wu s2.wu)).swap) 0 = (ufuncU (· + ·) s1 s2 m 0).map (toWave s2.wu) :=
   ufuncU_comm_across_units_density _ (fun a b => _root_.add_comm a b) (fun k a b => (add_div a b k).symm) s1 s2 f h1 h2 m hdw
 
+/-- addition and subtraction are instances of `unit_invariance_density` (every fill value, re-expressed as a density) -/
+theorem add_sub_unit_invariance_density (s1 s2 : USpec) (f1 f2 : FUnit) (h1 : s1.vu = some f1) (h2 : s2.vu = some f2) (u : WUnit)
+    (m : Sampling) (fill : ℚ)
+    (hdw : ∀ dw, samplingOf m s1.wave (if s2.wu = s1.wu then s2 else toWave s1.wu s2).wave = some dw → dw ≠ 0) :
+    ufuncU (· + ·) (toWave u s1) (toWave u s2) (m.scale (waveTo s1.wu u)) (fill / waveTo s1.wu u)
+        = (ufuncU (· + ·) s1 s2 m fill).map (toWave u) ∧
+    ufuncU (· - ·) (toWave u s1) (toWave u s2) (m.scale (waveTo s1.wu u)) (fill / waveTo s1.wu u)
+        = (ufuncU (· - ·) s1 s2 m fill).map (toWave u) :=
+  ⟨unit_invariance_density _ (fun k a b => (add_div a b k).symm) s1 s2 f1 f2 h1 h2 u m fill hdw,
+   unit_invariance_density _ (fun k a b => (sub_div a b k).symm) s1 s2 f1 f2 h1 h2 u m fill hdw⟩
+
 /-- non-vacuity: nested ranges, fill 0 -/
 example : ufunc (· + ·) ⟨[1, 2, 3], [10, 20, 30]⟩ ⟨[2, 3, 4, 5], [1, 1, 1, 1]⟩ .min 0
     = .ok ⟨[1, 2, 3, 4, 5], [10, 21, 31, 1, 1]⟩ := by decide +kernel
